@@ -131,3 +131,70 @@ Proof.
   - intros. eapply respond_w_echo; eauto.
   - intros. eapply respond_plain_echo; eauto.
 Qed.
+
+(* ---------- the plain responses, end to end from the request ---------- *)
+From QV Require Import Spec.MsgWriterS Proofs.ServerPlainP Proofs.MsgWalkP.
+
+Lemma sbe16_lt b a v : wf_bytes b -> sbe16 b a = Some v -> (v < 65536)%N.
+Proof.
+  intros Hw. unfold sbe16. destruct (nth_error b a) as [h|] eqn:A; [|discriminate].
+  destruct (nth_error b (a + 1)) as [l|] eqn:B; [|discriminate]. intros X; inversion X; subst.
+  pose proof (nth_error_Forall _ _ _ _ Hw A) as Hh. pose proof (nth_error_Forall _ _ _ _ Hw B) as Hl.
+  unfold is_octet in *. lia.
+Qed.
+
+Lemma valid_labels_count (ls : list bytes) : Forall RdataFormatS.valid_label ls -> 2 * length ls + 1 <= wire_len ls.
+Proof.
+  induction 1 as [|l r [H1 H2] _ IH]; [vm_compute; lia|]. rewrite wire_len_cons. simpl length. lia.
+Qed.
+
+(* a response of the server model that carries a question and does not come from query answering, rendered by
+   the byte-level composition: the independent decoder returns the REQUEST's id, QR = 1, opcode 0, AA = TC = 0,
+   RD as in the model's response, RA = Z = 0, the RCODE, the question, no records, and an OPT (owner root,
+   class = the configured payload size, TTL 0) exactly when the model's response is an EDNS response *)
+Theorem plain_response_end_to_end answer verify cfg req w q buf tcp limit rcode len b : wf_cfg cfg -> wf_bytes req ->
+  handle_message answer verify cfg req = Ok (Some w) -> Server.w_question w = Some q -> (rcode < 16)%N ->
+  respond_plain buf tcp (Server.w_id w) (Server.w_rd w) (labels_of (Reader.q_name q)) (Reader.q_type q) (Reader.q_class q)
+                (option_map fst (Server.w_edns w)) limit rcode = Some (len, b) ->
+  exists m, decode_msg (firstn len b) = Some m /\
+    sbe16 req 0 = Some (m_id m) /\ N.testbit (m_flags2 m) 7 = true /\ ((m_flags2 m / 8) mod 16 = 0)%N /\
+    N.testbit (m_flags2 m) 2 = false /\ N.testbit (m_flags2 m) 1 = false /\ N.testbit (m_flags2 m) 0 = Server.w_rd w /\
+    N.testbit (m_flags3 m) 7 = false /\ ((m_flags3 m / 16) mod 8 = 0)%N /\ (m_flags3 m mod 16 = rcode)%N /\
+    (exists d, m_qs m = [d] /\ dq_type d = Reader.q_type q /\ dq_class d = Reader.q_class q) /\
+    m_an m = [] /\ m_ns m = [] /\
+    match Server.w_edns w with
+    | None => m_ar m = []
+    | Some _ => exists d, m_ar m = [d] /\ dr_owner d = [] /\ dr_type d = 41%N /\ dr_class d = c_edns_size cfg /\ dr_ttl d = 0%N
+    end.
+Proof.
+  intros Hcfg Hwf HM Hq Hrc R. pose proof Hcfg as (H512 & H64k & _).
+  destruct (handle_message_response answer verify cfg req w Hcfg Hwf HM) as ((Hid & _) & QE & EO & _).
+  assert (H12 : 12 <= length req).
+  { destruct (le_lt_dec 12 (length req)) as [X|X]; [exact X|]. exfalso.
+    pose proof (proj2 (handle_message_silent_iff answer verify cfg req Hcfg Hwf) (or_introl X)) as S0. congruence. }
+  unfold question_echo in QE. rewrite Hq in QE. destruct QE as [QE|(_ & r1 & q' & RQ & QE)]; [discriminate|]. inversion QE; subst q'.
+  pose proof (read_question_facts (r0_of req) (r0_inv req Hwf H12)) as (_ & _ & _ & Fq).
+  rewrite RQ in Fq. cbn [fst snd] in Fq. destruct (Fq q eq_refl) as (ls & Dq & Nm & _).
+  cbn [r_octets r_cursor r0_of] in Dq. inversion Dq as [ls' l qt qc DN Sq Sc Hend]; subst ls' qt qc.
+  destruct DN as (e & De & _ & Hlen).
+  pose proof (decodes_labels_valid _ _ _ _ _ De) as Hv.
+  rewrite Nm, (labels_of_name_of ls Hv) in R.
+  assert (Hidv : sbe16 req 0 = Some (Server.w_id w) /\ (Server.w_id w < 65536)%N).
+  { destruct (@be16_at_sbe16 reader_err req 0 ltac:(lia)) as (v & V1 & V2).
+    unfold rd_id in Hid. cbn [r_octets r0_of] in Hid. change (N.to_nat ID_START) with 0 in Hid. rewrite V1 in Hid.
+    inversion Hid; subst v. split; [exact V2|exact (sbe16_lt _ _ _ Hwf V2)]. }
+  destruct Hidv as [Hid0 Hidlt].
+  assert (Hwn : Proofs.MsgWriterNameP.wf_name ls).
+  { split; [exact Hv|]. pose proof (valid_labels_count ls Hv). lia. }
+  destruct (respond_plain_decodes buf tcp (Server.w_id w) (Server.w_rd w) ls (Reader.q_type q) (Reader.q_class q)
+              (option_map fst (Server.w_edns w)) limit rcode len b Hidlt Hwn Hlen
+              (sbe16_lt _ _ _ Hwf Sq) (sbe16_lt _ _ _ Hwf Sc) Hrc) as (m & D & M1 & M2 & M3 & M4 & M5 & M6 & M7 & M8 & M9 & Mq & Ma & Mn & Mr).
+  { intros sz Hs. unfold edns_ok in EO. destruct (Server.w_edns w) as [[sz' up]|]; [|discriminate].
+    cbn in Hs. inversion Hs; subst. lia. }
+  { exact R. }
+  exists m. split; [exact D|]. rewrite M1. split; [exact Hid0|]. repeat (split; [assumption|]).
+  split. { destruct Mq as (d & E1 & _ & E2 & E3). exists d. auto. }
+  split; [exact Ma|]. split; [exact Mn|].
+  unfold edns_ok in EO. destruct (Server.w_edns w) as [[sz up]|]; cbn [option_map fst] in Mr; [|exact Mr].
+  destruct Mr as (d & R1 & R2 & R3 & R4 & R5). exists d. subst sz. auto.
+Qed.
